@@ -256,7 +256,8 @@ def run(ctx):
         steps, mism = 0, []
         corr_broken = ("model evaluation failed", str(ex)[-2000:])
     comp = {1: "error class", 2: "accounts (balance, stake, votes)", 3: "system balance / staking total", 4: "vote results",
-            5: "parameters", 6: "in-memory voting power rank", 7: "voting power rank rebuilt from storage"}
+            5: "parameters", 6: "in-memory voting power rank", 7: "voting power rank rebuilt from storage",
+            8: "GetRankers (producer set)", 9: "voting reward winner"}
     if mism:
         i, k, cs = mism[0]
         corr_broken = ("model/implementation differ on %s" % ", ".join(comp.get(c, str(c)) for c in cs),
